@@ -12,3 +12,7 @@ open IrVerif.Passes
 #print axioms C05_lift_sub_inits
 #print axioms C05_toposort
 #print axioms C05_cse_skips
+#print axioms IrVerif.Inline.C05_inline_partial
+#print axioms IrVerif.Inline.C05_call_depth
+#print axioms IrVerif.Inline.C05_unused_functions
+#print axioms IrVerif.Inline.C05_unused_opsets
